@@ -73,6 +73,8 @@ follows::
     prey = environment.getAgents(tag = Tags.PREY)
 """
 
+import sys
+
 
 class TagLibrary:
 
@@ -115,8 +117,8 @@ class TagLibrary:
             If a tag_name that already exists is used.
         """
 
-        # Check for duplicates
-        if tag_name in self.__dict__:
+        # Check for duplicates (and for names that would shadow the library's own attributes and methods)
+        if tag_name in self.__dict__ or (isinstance(tag_name, str) and hasattr(self, tag_name)):
             raise DuplicateTagError(tag_name)
         else:
             self.__dict__[tag_name] = self._tag_counter
@@ -220,6 +222,13 @@ def add_tag(tag_name: str):
     DuplicateTagError
         If a tag_name that already exists is used.
     """
+    # ``Tags.<tag_name>`` must resolve to the tag, so a name that already resolves to a module attribute is taken
+    try:
+        if isinstance(tag_name, str):
+            getattr(sys.modules[__name__], tag_name)
+            raise DuplicateTagError(tag_name)
+    except TagNotFoundError:
+        pass
     _module_library.add_tag(tag_name)
 
 
